@@ -261,9 +261,28 @@ func initCanon() {
 	}
 }
 
-// singleMutant returns the g-th single-point mutant (0 <= g < canonTotal).
+// tinyStreams: every one-byte stream and every first byte followed by a few
+// telling second bytes (the connection then ends or stalls with nothing more
+// to read). They are part of the enumerated space.
+var tinySeconds = []byte{0x00, 0x01, 0x7f, 0x80, 0x81, 0x84, 0xff}
+
+const tinyTotal = 256 * (1 + 7)
+
+func tinyStream(g int) ([]byte, string) {
+	b := byte(g % 256)
+	k := g / 256
+	if k == 0 {
+		return []byte{b}, fmt.Sprintf("one-byte stream %02x", b)
+	}
+	return []byte{b, tinySeconds[k-1]}, fmt.Sprintf("two-byte stream %02x %02x", b, tinySeconds[k-1])
+}
+
+// singleMutant returns the g-th single-point mutant (0 <= g < canonTotal + tinyTotal).
 func singleMutant(g int) (frame []byte, desc string) {
 	initCanon()
+	if g >= canonTotal {
+		return tinyStream(g - canonTotal)
+	}
 	for _, c := range canonCases {
 		if g < len(c.muts) {
 			m := c.muts[g]
